@@ -12,11 +12,12 @@ import (
 )
 
 type c06Case struct {
-	Cfg    LimitCfg `json:"cfg"`
-	Prefix []Sample `json:"prefix"`
-	Drop   Sample   `json:"drop"`  // (a) the single drop sample
-	Run    []Sample `json:"run"`   // (b) drop samples, cycled for as long as the bound allows
-	Const  bool     `json:"const"` // (b) use Run[0].RTT for the whole run
+	PrefixTimes int      `json:"prefix_times,omitempty"` // the prefix history is fed that many times over (thousands of samples before the judged part)
+	Cfg         LimitCfg `json:"cfg"`
+	Prefix      []Sample `json:"prefix"`
+	Drop        Sample   `json:"drop"`  // (a) the single drop sample
+	Run         []Sample `json:"run"`   // (b) drop samples, cycled for as long as the bound allows
+	Const       bool     `json:"const"` // (b) use Run[0].RTT for the whole run
 }
 
 // genLossCfg: configurations for which the loss/recovery claims are stated (DESIGN 4/C06).
@@ -56,6 +57,7 @@ func genC06(t *rapid.T) c06Case {
 	}
 	if rapid.Bool().Draw(t, "hasPrefix") {
 		c.Prefix = genSamples(t, c.Cfg, 150)
+		c.PrefixTimes = rapid.SampledFrom([]int{1, 1, 1, 1, 1, 1, 3, 10, 30}).Draw(t, "prefixTimes")
 	}
 	d := genSamples(t, c.Cfg, 1)[0]
 	d.Drop = true
@@ -89,7 +91,11 @@ func runC06(_ *testing.T, c c06Case) kit.Outcome {
 		return kit.Outcome{Labels: []string{"discard:default-initial-below-min"}}
 	}
 	aimdFormula := algo == "aimd" && c.Cfg.Ctor == ""
-	for _, s := range c.Prefix {
+	prefix := c.Prefix
+	for r := 1; r < c.PrefixTimes; r++ {
+		prefix = append(prefix, c.Prefix...)
+	}
+	for _, s := range prefix {
 		before := b.Outer.EstimatedLimit()
 		b.Outer.OnSample(s.Start, s.RTT, s.inflight(before), s.Drop)
 		after := b.Outer.EstimatedLimit()
